@@ -5,7 +5,7 @@ P=$1; M=$2; NEEDS=${3:-}
 WT=/tmp/wt/$P
 ID=$P-$M
 cd $WT || exit 2
-git checkout -q -- . ; git reset -q
+git reset -q --hard HEAD
 git checkout -q --detach $(git -C /repo rev-parse HEAD) || exit 2
 cp /repo/petl/version.py petl/version.py
 git apply -3 $M.diff >/dev/null 2>&1 || { echo "$ID: patch does not apply on current HEAD"; exit 1; }
@@ -13,7 +13,7 @@ git reset -q
 git diff -- petl > /tmp/wt/$ID.patch
 T=$(PYTHONPATH=$WT /venv/bin/python -m pytest -q -p no:cacheprovider --timeout=900 2>&1 | tail -1)
 PYTHONPATH=$WT /venv/bin/python demo_$M.py >/tmp/wt/$ID.with.log 2>&1; W=$?
-git checkout -q -- . ; git reset -q
+git reset -q --hard HEAD
 PYTHONPATH=$WT /venv/bin/python demo_$M.py >/tmp/wt/$ID.without.log 2>&1; WO=$?
 echo "$ID: tests[$T] demo-with=$W demo-without=$WO"
 case "$T" in *failed*|*error*) echo "$ID: REJECT tests fail"; exit 1;; esac
